@@ -44,11 +44,18 @@ CheckResult(e) ==
            ELSE TRUE
     ELSE TRUE
 
+\* C06: an accepted call invokes the transport exactly once, with the method and endpoint of Api!Route
+CheckRoute(e) ==
+  IF Has(e, "cfg") /\ Has(e.cfg, "routed") /\ ~Reject(e.op, e.a)
+    THEN /\ Judge("C06", "OneTransportCall", e.ncalls = 1, e.ncalls, 1)
+         /\ Judge("C06", "RouteOK", e.route = Route(e.op, e.cfg, e.a.serial), e.route, Route(e.op, e.cfg, e.a.serial))
+    ELSE TRUE
+
 \* calls whose arguments lie beyond what the projection can express (year 20000, HH:mm 100:100, ...)
 \* are judged for totality only
 Check(e) == IF e.op = "W26Intervals" THEN CheckW26(e)
             ELSE IF Has(e.a, "extreme") THEN CheckNoPanic(e)
-            ELSE CheckSent(e) /\ CheckReject(e) /\ CheckNoPanic(e) /\ CheckResult(e)
+            ELSE CheckSent(e) /\ CheckReject(e) /\ CheckNoPanic(e) /\ CheckResult(e) /\ CheckRoute(e)
 
 TraceNext == l <= Len(Trace) /\ Check(Trace[l]) /\ l' = l + 1
 ========================================================================
